@@ -363,10 +363,7 @@ def interestHandle (k : Nat) (s : InterestSt) (l sp : Nat) (r : Rd) : Res (Inter
       match r.range (r.pos - 1) r.pos with
       | x :: _ => pure ({ s with v := { s.v with hl := some x } }, r)
       | [] => .panic "index out of range (HopLimit Range)"
-    | .err =>
-      (match r with
-       | .buf _ => .err
-       | .wire _ => .panic "index out of range (HopLimit Range after failed Skip)")
+    | .err => .err       -- a failed Skip leaves the reader unchanged; Range(Pos()-1, Pos()) is valid (Pos() ≥ 2)
     | .panic m => .panic m
     | .alloc => .alloc
     | .oom => .oom
